@@ -142,10 +142,52 @@ def r5(ctx):
         ctx.ob('C02.R5', fn, x['node'], ok, 'echo mismatch -> skip', 'target %s, missing guards %s' % (x['to'], missing))
 
 
+def notified_value_ok(fn, expr, pres):
+    """the value handed to notify() as a function of the result parameter, evaluated for the cases negative (-k), 0 and
+    positive (+k, further input buffered): a negative result passes unchanged or as another negative code (SYN->TIMEOUT),
+    0 stays 0 and a positive result is reported as 0 - callers take every non-zero value for a failure"""
+    def ev(x, r):
+        x = fn.strip(x, casts=True)
+        v = fn.nodes[x]
+        if fn.val(x) is not None:
+            return [fn.val(x)]
+        if v['k'] == 'DeclRefExpr' and v.get('name') == pres:
+            return [r]
+        if v['k'] == 'ConditionalOperator':
+            c = cond(v['cond'], r)
+            out = []
+            if c in (True, None):
+                out += ev(v['then'], r)
+            if c in (False, None):
+                out += ev(v['else'], r)
+            return out
+        return [None]
+
+    def cond(x, r):
+        x = fn.strip(x, casts=True)
+        v = fn.nodes[x]
+        if v['k'] == 'BinaryOperator' and v.get('op') in ('&&', '||'):
+            a, b = cond(v['lhs'], r), cond(v['rhs'], r)
+            if v['op'] == '&&':
+                return False if (a is False or b is False) else (True if (a is True and b is True) else None)
+            return True if (a is True or b is True) else (False if (a is False and b is False) else None)
+        if v['k'] == 'BinaryOperator' and v.get('op') in ('<', '>', '<=', '>=', '==', '!='):
+            l, rr = ev(v['lhs'], r), ev(v['rhs'], r)
+            if len(l) == 1 and len(rr) == 1 and l[0] is not None and rr[0] is not None:
+                return {'<': l[0] < rr[0], '>': l[0] > rr[0], '<=': l[0] <= rr[0], '>=': l[0] >= rr[0],
+                        '==': l[0] == rr[0], '!=': l[0] != rr[0]}[v['op']]
+        return None
+    neg = ev(expr, -1000003)     # a generic negative code that equals no enumerator
+    zero = ev(expr, 0)
+    pos = ev(expr, 1)
+    return all(x is not None and x < 0 for x in neg) and zero == [0] and pos == [0]
+
+
 def r6(ctx):
     ctx.rule('C02.R6', 'setState hands the result to the request (notify) exactly when the exchange is closed (state sendSyn) '
-             'or failed (negative result that is not a first repetition), passing the result unchanged except for the '
-             'documented SYN->TIMEOUT mapping; sendAndWait returns the request result only after addRequest succeeded',
+             'or failed (negative result that is not a first repetition); a negative result is passed on as a negative code '
+             '(SYN->TIMEOUT mapping), 0 as 0 and a positive result (further input buffered) as 0; sendAndWait returns the '
+             'request result only after addRequest succeeded',
              minimum=2)
     fb = ctx.fb
     fn = fb.fn(A.SS)
@@ -162,7 +204,7 @@ def r6(ctx):
         if pres in a0:
             ok1 = fn.needs_one_of(c, [('(%s == #%d)' % (pst, inv['bs_sendSyn']), True), (pfirst, False)])
             ok2 = ('(this.m_currentRequest == #0)', False) in atoms
-            okarg = a0 == pres or (a0.startswith('(((%s ==' % pres) and a0.endswith(': %s)' % pres))
+            okarg = notified_value_ok(fn, fn.nodes[c]['args'][0], pres)
             ctx.ob('C02.R6', fn, c, ok1 and ok2 and okarg, 'notify(result)',
                    'only when closed or failed without pending repetition: %s; request present: %s; argument %s' % (ok1, ok2, a0[:80]))
         else:
